@@ -59,7 +59,7 @@ def conditions(tier):
     cs += _p.pdrv_conditions(select="none", k_all=0, k_tags=0, stop_too=False, extra=extra)
     cs.append(Cond("harness.c18", "scan_text", {"maxlen": 4 if q else 6}, T=900, reach=["two-lines"]))
     for kind, head in (("DocStringSeparator", '"""'), ("DocStringSeparator", "```"), ("Other", "")):
-        for hist in ([["open", '    """'], ["reset"]], [["open", "  ```"], ["touch", "x"], ["reset"]]):
+        for hist in ([["open", '    """'], ["reset"]], [["open", "  ```"], ["touch", "x"], ["reset"]], [["open", '"""'], ["reset"]]):
             cs.append(Cond("harness.line", "line_after_history", {"kind": kind, "head": head, "history": hist, "maxlen": 1, "maxind": 2}, T=600,
                            label="line.after_history[%s head=%r hist=%s]" % (kind, head, hist[0][1])))
     cs += _d.doc_conditions(tier, shapes=("docstring",), eols=("\n",) if q else ("\n", "\r\n"))
